@@ -33,11 +33,42 @@ import (
 func main() { Main(map[string]Runner{"cands": runCands}) }
 
 func runCands(rng *rand.Rand, n int, out *Out, _ []string) {
+	legacyNonSendReproducer(rng, out)
 	for i := 0; i < n; i++ {
 		if i == 1 {
 			manyDescendantsHistory(rng, out)
 		}
-		history(rng, out)
+		history(rng, out, i)
+	}
+}
+
+// the known finding c03-legacy-receive-references-non-send-block, reproduced in every run on a node below the enforcement
+// height: user 2 receives a send, the receive is confirmed, then user 2 "receives" that receive block; the same candidate
+// on a node that enforces the receiver rule is refused
+func legacyNonSendReproducer(rng *rand.Rand, out *Out) {
+	for _, enf := range []uint64{1 << 60, 0} {
+		func() {
+			nd := NewNodeEnforcedAt(enf)
+			defer ResetEnforcement()
+			defer nd.Stop()
+			h := &hist{nd: nd, rng: rng, out: out, ids: NewIDs(), sc: NewScanner(nd), actors: Actors(), enf: enf}
+			a, b := h.actors[0], h.actors[1]
+			if !h.traffic(&nom.AccountBlock{BlockType: nom.BlockTypeUserSend, Address: a.Address, ToAddress: b.Address,
+				TokenStandard: types.ZnnTokenStandard, Amount: big.NewInt(1000)}, a, "reproducer-send") {
+				return
+			}
+			nd.Momentum()
+			send := nd.Ch.GetFrontierAccountStore(a.Address).Identifier()
+			if !h.traffic(&nom.AccountBlock{BlockType: nom.BlockTypeUserReceive, Address: b.Address, FromBlockHash: send.Hash}, b, "reproducer-receive") {
+				return
+			}
+			nd.Momentum()
+			recv := nd.Ch.GetFrontierAccountStore(b.Address).Identifier()
+			cand := &nom.AccountBlock{BlockType: nom.BlockTypeUserReceive, Address: b.Address, FromBlockHash: recv.Hash}
+			h.prepare(cand, b)
+			code := h.try(cand, "reproducer:receive-of-a-receive-block")
+			out.Count(fmt.Sprintf("c03:reproducer:receive-of-a-receive-block:enforcement-height-%d:%s", enf, codeName[code]))
+		}()
 	}
 }
 
@@ -133,6 +164,8 @@ type hist struct {
 	ids    *IDs
 	sc     *Scanner
 	actors []*wallet.KeyPair
+	enf    uint64 // verifier.ReceiverMismatchEnforcementHeight of this history
+	pl     *Scan  // the ledger (chain + pool) the current candidates are built on
 }
 
 func optI(v *int64) M {
@@ -186,7 +219,7 @@ func (h *hist) blockTerm(b *nom.AccountBlock) M {
 
 // facts: what the node knows for this candidate, each read through the public store API
 type facts struct {
-	maKnown, acctStore, prevKnownGlobal, received, methodOK bool
+	maKnown, acctStore, prevKnownGlobal, received, methodOK, fromIsSend bool
 	globalFrontier, prevMAHeight, fromTo, next            *int64
 	frontierHash, frontierHeight                         *int64
 	fromConf, frontierMomHeight                          uint64
@@ -252,6 +285,7 @@ func (h *hist) facts(b *nom.AccountBlock) (f *facts) {
 	if ms != nil {
 		if sb, err := ms.GetAccountBlockByHash(b.FromBlockHash); err == nil && sb != nil {
 			f.fromTo = i64p(h.addrID(sb.ToAddress))
+			f.fromIsSend = sb.IsSendBlock()
 		}
 		f.fromConf, _ = ms.GetBlockConfirmationHeight(b.FromBlockHash)
 		if c, err := ms.GetAccountStore(b.Address).GetChainPlasma(); err == nil {
@@ -302,7 +336,7 @@ func (h *hist) ctxTerm(f *facts) M {
 		regen = Some(Tup(I64(*f.regenHash), I64(*f.regenChanges)))
 	}
 	return Con("mkC", U64(h.nd.Ch.ChainIdentifier()), f.maKnown, f.acctStore, optI(f.globalFrontier), f.prevKnownGlobal, fr,
-		optI(f.prevMAHeight), optI(f.fromTo), U64(f.fromConf), f.received, optI(f.next), U64(f.frontierMomHeight),
+		optI(f.prevMAHeight), optI(f.fromTo), f.fromIsSend, U64(f.fromConf), f.received, optI(f.next), U64(f.frontierMomHeight),
 		U64(verifier.ReceiverMismatchEnforcementHeight), Big(f.fused), Big(f.committed), Big(f.uncommitted), optI(f.base),
 		f.methodOK, Big(f.balance), regen)
 }
@@ -379,7 +413,17 @@ func (h *hist) validityOracle(b *nom.AccountBlock, f *facts) {
 		ch, _ := fms.GetBlockConfirmationHeight(b.FromBlockHash)
 		sb, _ := fms.GetAccountBlockByHash(b.FromBlockHash)
 		ok := sb != nil && ch != 0 && ch <= b.MomentumAcknowledged.Height && sb.IsSendBlock()
-		o(ok, "c03-accepted-receive-of-confirmed-send", "")
+		dsend := ""
+		if !ok && sb != nil {
+			dsend = fmt.Sprintf("references %v of block type %d confirmed at %d, acknowledges %d, enforcement height %d, frontier %d", sb.Header(), sb.BlockType, ch, b.MomentumAcknowledged.Height, h.enf, fms.Identifier().Height)
+		}
+		if sb != nil && ch != 0 && ch <= b.MomentumAcknowledged.Height && !sb.IsSendBlock() && fms.Identifier().Height < h.enf && !emb {
+			// known finding, legacy regime only: fromHash() never asks whether the referenced block is a send block; below the
+			// enforcement height the zero ToAddress of a non-send block passes as a tolerated receiver mismatch
+			o(false, "c03-legacy-receive-references-non-send-block", dsend)
+		} else {
+			o(ok, "c03-accepted-receive-of-confirmed-send", dsend)
+		}
 		if sb != nil && fms.Identifier().Height >= verifier.ReceiverMismatchEnforcementHeight {
 			o(sb.ToAddress == b.Address, "c03-accepted-receive-by-addressee", "")
 		}
@@ -395,6 +439,50 @@ func (h *hist) validityOracle(b *nom.AccountBlock, f *facts) {
 			}
 		}
 		o(!dup, "c03-accepted-receive-not-yet-received", "")
+		// a chain that enforces the receiver from its genesis on: no block of any other account, confirmed or
+		// unconfirmed, receives the same send (blocks of the same account above the stated predecessor compete for the
+		// same position and are replaced)
+		if h.enf <= 1 && h.pl != nil {
+			var by string
+			for _, r := range h.pl.ReceivedBy[b.FromBlockHash] {
+				if r.Address != b.Address {
+					by = fmt.Sprint(r.Header())
+				}
+			}
+			o(by == "", "c03-accepted-receive-unreceived-ledger-wide", by)
+		}
+	}
+	// plasma (user blocks): what the block fuses, together with what the account's blocks between the acknowledged
+	// momentum and the STATED predecessor fused, is covered by the plasma of the QSR fused for the account; PoW + fused
+	// plasma reach the base plasma of the block
+	if !emb && as != nil {
+		okP := false
+		var detail string
+		if ms := nd.Ch.GetMomentumStore(b.MomentumAcknowledged); ms != nil {
+			fusedQsr, _ := ms.GetStakeBeneficialAmount(b.Address)
+			have := new(big.Int).SetUint64(vm.FussedAmountToPlasma(fusedQsr))
+			spent := new(big.Int).SetUint64(b.FusedPlasma)
+			for i := ms.GetAccountStore(b.Address).Identifier().Height + 1; i <= as.Identifier().Height; i++ {
+				if pb, _ := as.ByHeight(i); pb != nil {
+					spent.Add(spent, new(big.Int).SetUint64(pb.FusedPlasma))
+				}
+			}
+			total := new(big.Int).Add(new(big.Int).SetUint64(vm.DifficultyToPlasma(b.Difficulty)), new(big.Int).SetUint64(b.FusedPlasma))
+			base := uint64(0)
+			var berr error
+			func() {
+				defer func() {
+					if r := recover(); r != nil {
+						berr = fmt.Errorf("%v", r)
+					}
+				}()
+				base, berr = vm.GetBasePlasmaForAccountBlock(nd.Context(b), b.Copy())
+			}()
+			okP = spent.Cmp(have) <= 0 && berr == nil && total.Cmp(new(big.Int).SetUint64(base)) >= 0 &&
+				total.Cmp(new(big.Int).SetUint64(constants.MaxPlasmaForAccountBlock)) <= 0
+			detail = fmt.Sprintf("fused since the acknowledged momentum incl. this block %v, plasma of the fused QSR %v, pow+fused %v, base %d (%v)", spent, have, total, base, berr)
+		}
+		o(okP, "c03-accepted-plasma-covered-at-predecessor", detail)
 	}
 }
 
@@ -428,6 +516,12 @@ func sameContent(a, b *nom.AccountBlock) bool {
 // ---------------------------------------------------------------- candidates
 
 func (h *hist) try(b *nom.AccountBlock, tag string) int64 {
+	code, _ := h.tryTx(b, tag)
+	return code
+}
+
+// tryTx: one candidate through Supervisor.ApplyBlock (no insertion): tie case, and the validity oracle when accepted
+func (h *hist) tryTx(b *nom.AccountBlock, tag string) (int64, *nom.AccountBlockTransaction) {
 	f := h.facts(b)
 	ctx := h.ctxTerm(f)
 	blk := h.blockTerm(b)
@@ -436,14 +530,14 @@ func (h *hist) try(b *nom.AccountBlock, tag string) int64 {
 	if b.Amount == nil {
 		cp.Amount = nil
 	}
-	_, err := h.nd.Apply(cp)
+	tx, err := h.nd.Apply(cp)
 	code := verdict(b, err)
 	h.out.Case("c03_apply", Tup(ctx, blk), I64(code), tag)
 	h.out.Count("c03:verdict:" + codeName[code])
 	if code == 0 {
 		h.validityOracle(b, f)
 	}
-	return code
+	return code, tx
 }
 
 func (h *hist) prepare(b *nom.AccountBlock, kp *wallet.KeyPair) {
@@ -471,10 +565,22 @@ func typeName(b *nom.AccountBlock) string {
 	return "other"
 }
 
-func history(rng *rand.Rand, out *Out) {
-	nd := NewNode()
+// history: one node, one regime of the receiver rule. Of four histories two run enforced from genesis (height 0), one
+// wholly below the enforcement height, one with the enforcement height in the middle (the switch-over is crossed).
+func history(rng *rand.Rand, out *Out, idx int) {
+	var enf uint64
+	regime := "enforced"
+	switch idx % 4 {
+	case 2:
+		enf, regime = 1<<60, "legacy"
+	case 3:
+		enf, regime = uint64(3+rng.Intn(8)), "switch-over"
+	}
+	nd := NewNodeEnforcedAt(enf)
+	defer ResetEnforcement()
 	defer nd.Stop()
-	h := &hist{nd: nd, rng: rng, out: out, ids: NewIDs(), sc: NewScanner(nd), actors: Actors()}
+	out.Count("c03:history-regime:" + regime)
+	h := &hist{nd: nd, rng: rng, out: out, ids: NewIDs(), sc: NewScanner(nd), actors: Actors(), enf: enf}
 	users := []types.Address{}
 	for _, kp := range h.actors {
 		users = append(users, kp.Address)
@@ -500,23 +606,79 @@ func history(rng *rand.Rand, out *Out) {
 		if rng.Intn(2) == 0 {
 			nd.Momentum()
 		}
-		// some of the confirmed sends are received (so that 'already received' candidates exist)
+		// some of the confirmed sends are received (so that 'already received' candidates exist): by the addressee, and
+		// by accounts that are not the addressee (accepted below the enforcement height only), some of them twice
 		sc := h.sc.Scan(true)
+		h.pl = sc
 		for _, s := range sc.Sends {
-			if s.Confirmed && len(sc.ReceivedBy[s.Block.Hash]) == 0 && rng.Intn(3) == 0 {
+			if !s.Confirmed {
+				continue
+			}
+			if len(sc.ReceivedBy[s.Block.Hash]) == 0 && rng.Intn(3) == 0 {
 				if kp := KeyOf(s.Block.ToAddress); kp != nil {
-					b := &nom.AccountBlock{BlockType: nom.BlockTypeUserReceive, Address: kp.Address, FromBlockHash: s.Block.Hash}
-					h.prepare(b, kp)
-					if tx, err := nd.Apply(b); err == nil {
-						nd.Insert(tx)
-					}
+					h.traffic(&nom.AccountBlock{BlockType: nom.BlockTypeUserReceive, Address: kp.Address, FromBlockHash: s.Block.Hash}, kp, "addressee-receive")
+				}
+			}
+			if rng.Intn(5) == 0 {
+				kp := h.actors[rng.Intn(len(h.actors))]
+				if kp.Address == s.Block.ToAddress {
+					continue
+				}
+				for k := 1 + rng.Intn(3)/2; k > 0; k-- {
+					h.traffic(&nom.AccountBlock{BlockType: nom.BlockTypeUserReceive, Address: kp.Address, FromBlockHash: s.Block.Hash}, kp, "other-receive")
 				}
 			}
 		}
 		if rng.Intn(3) == 0 {
 			nd.Momentum()
 		}
+		h.deepen()
 		h.candidates()
+		h.forkCandidates()
+	}
+}
+
+// traffic: a block of the history itself; it goes through the same comparison and oracle as a candidate and is
+// inserted when accepted
+func (h *hist) traffic(b *nom.AccountBlock, kp *wallet.KeyPair, what string) bool {
+	h.prepare(b, kp)
+	code, tx := h.tryTx(b, "traffic:"+what)
+	h.out.Count("c03:traffic:" + what + ":" + codeName[code])
+	if code != 0 || tx == nil {
+		return false
+	}
+	return h.nd.Insert(tx) == nil
+}
+
+// deepen: one or two accounts get a stack of 1-4 unconfirmed blocks, receives (the balance rises) and sends of a
+// sizeable part of the balance (it falls), so that earlier positions of the account chain differ from the pool frontier
+func (h *hist) deepen() {
+	rng, nd := h.rng, h.nd
+	sc := h.sc.Scan(true)
+	used := map[types.Hash]bool{}
+	for k := 1 + rng.Intn(2); k > 0; k-- {
+		kp := h.actors[rng.Intn(len(h.actors))]
+		for d := 1 + rng.Intn(4); d > 0; d-- {
+			var from *nom.AccountBlock
+			for _, s := range sc.Sends {
+				if s.Confirmed && s.Block.ToAddress == kp.Address && len(sc.ReceivedBy[s.Block.Hash]) == 0 && !used[s.Block.Hash] {
+					from = s.Block
+					if rng.Intn(2) == 0 {
+						break
+					}
+				}
+			}
+			if from != nil && rng.Intn(5) < 3 {
+				used[from.Hash] = true
+				h.traffic(&nom.AccountBlock{BlockType: nom.BlockTypeUserReceive, Address: kp.Address, FromBlockHash: from.Hash}, kp, "stacked-receive")
+				continue
+			}
+			zts := []types.ZenonTokenStandard{types.ZnnTokenStandard, types.ZnnTokenStandard, types.QsrTokenStandard}[rng.Intn(3)]
+			bal, _ := nd.Ch.GetFrontierAccountStore(kp.Address).GetBalance(zts)
+			amt := new(big.Int).Div(new(big.Int).Mul(bal, big.NewInt(int64(1+rng.Intn(6)))), big.NewInt(10))
+			h.traffic(&nom.AccountBlock{BlockType: nom.BlockTypeUserSend, Address: kp.Address, ToAddress: h.actors[rng.Intn(len(h.actors))].Address,
+				TokenStandard: zts, Amount: amt}, kp, "stacked-send")
+		}
 	}
 }
 
@@ -527,8 +689,10 @@ func (h *hist) candidatesWith(prefer *nom.AccountBlock) {
 	rng := h.rng
 	nd := h.nd
 	pl := h.sc.Scan(true)
+	h.pl = pl
 	var bases []*nom.AccountBlock
 	var keys []*wallet.KeyPair
+	kind := map[*nom.AccountBlock]string{}
 	// user send / user call
 	for i := 0; i < 2; i++ {
 		kp := h.actors[rng.Intn(len(h.actors))]
@@ -557,6 +721,44 @@ func (h *hist) candidatesWith(prefer *nom.AccountBlock) {
 		}
 		if len(bases) >= 4 {
 			break
+		}
+	}
+	// user receives by an account that is NOT the addressee of the send (users and contracts as addressees): below the
+	// enforcement height valid once per receiving account, from it on refused. One by an account that has already
+	// received that send as a non-addressee, up to two by random other accounts (send received by nobody / by its
+	// addressee / by a third account).
+	{
+		var again []*nom.AccountBlock
+		var conf []*nom.AccountBlock
+		for _, s := range pl.Sends {
+			if !s.Confirmed {
+				continue
+			}
+			conf = append(conf, s.Block)
+			for _, r := range pl.ReceivedBy[s.Block.Hash] {
+				if r.Address != s.Block.ToAddress && KeyOf(r.Address) != nil {
+					again = append(again, r)
+				}
+			}
+		}
+		if len(again) > 0 {
+			r := again[rng.Intn(len(again))]
+			kp := KeyOf(r.Address)
+			b := &nom.AccountBlock{BlockType: nom.BlockTypeUserReceive, Address: kp.Address, FromBlockHash: r.FromBlockHash}
+			h.prepare(b, kp)
+			bases, keys = append(bases, b), append(keys, kp)
+			kind[b] = "user-receive-again-by-non-addressee"
+		}
+		for k := 0; k < 1 && len(conf) > 0; k++ {
+			sb := conf[rng.Intn(len(conf))]
+			kp := h.actors[rng.Intn(len(h.actors))]
+			if kp.Address == sb.ToAddress {
+				continue
+			}
+			b := &nom.AccountBlock{BlockType: nom.BlockTypeUserReceive, Address: kp.Address, FromBlockHash: sb.Hash}
+			h.prepare(b, kp)
+			bases, keys = append(bases, b), append(keys, kp)
+			kind[b] = "user-receive-by-non-addressee"
 		}
 	}
 	// contract receive (an unconfirmed one generated by the node, re-verified at its own position) and one of its
@@ -596,9 +798,12 @@ func (h *hist) candidatesWith(prefer *nom.AccountBlock) {
 	}
 	for i, base := range bases {
 		tn := typeName(base)
+		nm := 10
+		if k := kind[base]; k != "" {
+			tn, nm = k, 4
+		}
 		code := h.try(base, tn+":unmutated")
 		h.out.Count("c03:base:" + tn + ":" + codeName[code])
-		nm := 10
 		if tn == "contract-send" || tn == "genesis-receive" {
 			nm = 3
 		}
@@ -737,9 +942,16 @@ func (h *hist) mutate(b *nom.AccountBlock, pl *Scan) string {
 			return "DescendantContent"
 		}
 		fallthrough
-	case 23: // a send to this account that it has already received
+	case 23: // a send that this very account has already received (as its addressee or, below the enforcement height, not)
 		if b.IsReceiveBlock() {
-			b.FromBlockHash = someSend(func(s SendRec) bool { return s.Block.ToAddress == b.Address && len(pl.ReceivedBy[s.Block.Hash]) > 0 })
+			b.FromBlockHash = someSend(func(s SendRec) bool {
+				for _, r := range pl.ReceivedBy[s.Block.Hash] {
+					if r.Address == b.Address {
+						return true
+					}
+				}
+				return false
+			})
 			return "FromBlockHash"
 		}
 		fallthrough
